@@ -81,8 +81,10 @@ class BusProtocol (txdbus.protocol.BasicDBusProtocol):
 
         msg.sender = self.uniqueName
 
-        # re-marshal with the sender set and same serial number
-        msg._marshal(False)
+        # re-marshal with the sender set and same serial number. The body is
+        # forwarded as received: decoding and re-encoding it would lose the
+        # types of values carried in variants
+        msg._marshal(False, rawBody=msg.rawBody)
 
         self.bus.messageReceived(self, msg)
 
